@@ -20,7 +20,7 @@ if "--kani" in opt:
 if extra:
     h["kani"] = ",".join(([h["kani"]] if h.get("kani") else []) + extra)
 base = "/var/tmp/gv-dev-" + arg("--slot", "0")
-d, _ = run.prepare_flavour(base, fl, allh)
+d, _ = run.prepare_flavour(base, run.flkey(h), allh)
 os.makedirs(base + "/logs", exist_ok=True)
 r = run.run_kani(h, d, "dev", base + "/logs")
 out = open(base + "/logs/" + name + ".log").read()
